@@ -20,6 +20,7 @@ func propC18(r *Report, tier string) {
 	ruleLatLonRoles(r, "K11-lat-lon-roles")
 	ruleGeoStepAgreement(r, "K11-geo-precision-step")
 	ruleScratchResetBeforeVisit(r, "K5-scratch-reset-before-visit", "search/searcher")
+	ruleFilteringWrappersFilterEveryResult(r, "K5-filter-wrapper-filters-every-result")
 	ruleAxisDiscipline(r, "K11-axis-discipline", "geo", "search/searcher", "search/query", "search")
 	r.Floor("K15-visitor-latch", 4)
 	r.Floor("K5-geo-post-filter", 4)
